@@ -117,10 +117,12 @@ size_t varintPFORSize(const varintPFORMeta *meta) {
     /* Exception count */
     size += varintTaggedLen(meta->exceptionCount);
 
-    /* Exceptions: each is (index, value) pair */
-    for (uint32_t i = 0; i < meta->exceptionCount; i++) {
-        size += varintTaggedLen(i);          /* worst case index */
-        size += varintTaggedLen(UINT64_MAX); /* worst case value */
+    /* Exceptions: each is (index, value) pair. An exception's index is its
+     * position in the input (up to count - 1), not its ordinal in the list. */
+    if (meta->exceptionCount > 0) {
+        size_t perException = varintTaggedLen(meta->count - 1) /* worst index */
+                              + varintTaggedLen(UINT64_MAX);   /* worst value */
+        size += (size_t)meta->exceptionCount * perException;
     }
 
     return size;
